@@ -106,7 +106,7 @@ def run_case(ctx, c):
 
 
 def run_shard(shard, ctx):
-    run_given(ctx, decl.decl_cases(PROF, ntrees=3, trunc_cap=24, randoms=2), lambda c: run_case(ctx, c), 150 if ctx.tier == "quick" else 1500)
+    run_given(ctx, decl.decl_cases(PROF if ctx.tier == "quick" else gen.deeper(PROF), ntrees=3, trunc_cap=24, randoms=2), lambda c: run_case(ctx, c), 150 if ctx.tier == "quick" else 1500)
 
 
 def replay(case, ctx):
